@@ -53,6 +53,19 @@ check("C06",
   "Single edits only (no edit pairs); three base blocks. Variants with a different hash are different blocks and not judged here.",
   "DESIGN.md §3 C06")
 
+check("C09",
+  "small-scope exhaustive enumeration of values of every format against the real encoders/decoders",
+  "exploration",
+  "Every value of a small-scope grammar with pairwise distinct non-zero fields: 40 slips (10 types x boundary amounts), hops, ~2000 transactions (9 types x input/output counts {0,1,2,254,255} x payload sizes x 0..3 hops x replacement counts), full and header-only blocks with 31 distinct header fields and 0..3 transactions, all 15 message tags with each payload shape, handshake responses (url 0/1/300 bytes, 0..2 services), chain-sync messages with 0..3 entries, service lists, versions, balance-snapshot rows and text, the wallet disk record: decode(encode v) = v field by field, predicted size = real size, encode(decode b) = b, transaction hash unchanged. Plus a real 9-block chain (fees, golden tickets, rebroadcasts): bytes -> decode -> re-encode identical, acceptance verdict after the wire, block file written by the node -> Storage::load_block_from_disk -> same bytes / hash / creator signature / transaction hashes, and a twin node fed from those files reaches the same chain state.",
+  "Lite blocks are covered by C18. Values outside the grammar (arbitrary payload bytes) are not enumerated.",
+  "DESIGN.md §3 C09")
+check("C10",
+  "bounded-exhaustive truncation and boundary corruption of valid encodings against every reachable decoder, in a child process with a counting allocator",
+  "exploration",
+  "For 85 base encodings covering every decoder a peer or the disk can reach (Message::deserialize for all tags, Block / Transaction / Slip / Hop decoders incl. the generate() pass every decoded block and transaction goes through, block files through Storage, chain-sync, handshake challenge/response, blockchain request, service list, version, wallet disk record, utxo key parser, balance-snapshot text, issuance file): every prefix, every 1/2/4-byte window forced to 00/FF, eleven boundary values on every count / length / tag field, all 256 values of tag and type bytes, and all byte strings of length <= 3 under every message tag (~190k inputs quick). Oracle: Ok or Err, no panic, peak allocation (counting global allocator) <= 64*len + 1 MiB; the sweep runs in a child process so an abort is reported.",
+  "Prefix/window sweeps are exhaustive over the first 700 bytes of each encoding in the quick tier and over the whole encoding in the thorough tier. GoldenTicket::deserialize_from_net and ApiMessage::deserialize are swept through their guarded callers.",
+  "DESIGN.md §3 C10")
+
 NOT_YET = "check not built yet in this session (work in progress, see DESIGN.md §8 build order); nothing is claimed for it"
 NA = {}
 
